@@ -36,7 +36,11 @@ AtomTable == <<
   [kind |-> "regexp", src |-> "/\\'[^\\']*\\'/", pat |-> Pat("Terminal", "Regexp", "\\'[^\\']*\\'"), out |-> "/\\'[^\\']*\\'/"],
   [kind |-> "string", src |-> "\"\\t\"",      pat |-> Pat("Terminal", "Equals", "\t"),     out |-> "\"\t\""],
   [kind |-> "string", src |-> "\":=\"",       pat |-> Pat("Terminal", "Equals", ":="),     out |-> "\":=\""],
-  [kind |-> "regexp", src |-> "/[a-z_]\\w*/", pat |-> Pat("Terminal", "Regexp", "[a-z_]\\w*"), out |-> "/[a-z_]\\w*/"] >>
+  [kind |-> "regexp", src |-> "/[a-z_]\\w*/", pat |-> Pat("Terminal", "Regexp", "[a-z_]\\w*"), out |-> "/[a-z_]\\w*/"],
+  \* delimiters are removed exactly once: a body may end (or begin) with an escaped slash, a string may consist of slashes
+  [kind |-> "regexp", src |-> "/<\\//",     pat |-> Pat("Terminal", "Regexp", "<\\/"),      out |-> "/<\\//"],
+  [kind |-> "regexp", src |-> "/\\/x/",     pat |-> Pat("Terminal", "Regexp", "\\/x"),      out |-> "/\\/x/"],
+  [kind |-> "string", src |-> "\"//\"",     pat |-> Pat("Terminal", "Equals", "//"),        out |-> "\"//\""] >>
 Plain == 4           \* the first four atoms are the ones sentence generation understands
 CONSTANTS Rich       \* TRUE: leaves cycle through the whole table; FALSE: through the first four
 
@@ -201,7 +205,7 @@ GramLarkRoundTrips == \A i \in DOMAIN GramLark : Parse(PrettyToks(M(GramLark[i].
 Unwraps == <<"", "[1]", "[*]">>
 Case(x, id) == [id |-> id, src |-> Src(x), tup |-> Tup(x), model |-> M(x), pretty |-> Pretty(M(x)),
                 norm |-> Norm(M(x)), reparsed |-> Parse(PrettyToks(M(x)))]
-Offsets == IF Rich THEN {0, 3, 6, 9} ELSE {0, 1}
+Offsets == IF Rich THEN {0, 3, 6, 9, 12} ELSE {0, 1}
 Emit == \A off \in Offsets : \A x \in ExprsFrom(off) : PrintT("CASE " \o ToJson(Case(x, off)))
 RoundTripAll == \A off \in Offsets : \A x \in ExprsFrom(off) : Parse(PrettyToks(M(x))) = M(x)
 RoundTripNormAll == \A off \in Offsets : \A x \in ExprsFrom(off) : Norm(Parse(PrettyToks(M(x)))) = Norm(M(x))
